@@ -91,6 +91,59 @@ def _work(prop_id, base_seed, start, end, dsample):
     return out
 
 
+def _in_child(fn, *args):
+    """Run fn(*args) in a forked child of this (pristine) worker and return its pickled result.  Every chunk
+    of runs therefore starts from the same process state: whatever the library keeps between objects
+    (module-level caches, class attributes) can only come from EARLIER RUNS OF THE SAME CHUNK, which makes a
+    violation that needs such history replayable as a sequence of traces."""
+    import pickle
+
+    r, w = os.pipe()
+    pid = os.fork()
+    if pid == 0:
+        code = 0
+        try:
+            os.close(r)
+            data = pickle.dumps(fn(*args))
+            with os.fdopen(w, "wb") as fh:
+                fh.write(data)
+        except BrokenPipeError:
+            code = 1      # the batch was stopped (violation found elsewhere): nobody is listening any more
+        except BaseException:  # noqa: BLE001
+            traceback.print_exc()
+            code = 1
+        finally:
+            os._exit(code)
+    os.close(w)
+    with os.fdopen(r, "rb") as fh:
+        data = fh.read()
+    _, status = os.waitpid(pid, 0)
+    if status != 0 or not data:
+        raise RuntimeError(f"chunk child failed (wait status {status})")
+    return pickle.loads(data)
+
+
+def _work_isolated(prop_id, base_seed, start, end, dsample):
+    recs = _in_child(_work, prop_id, base_seed, start, end, dsample)
+    for rec in recs:
+        rec["chunk_start"] = start
+    return recs
+
+
+def _replay_task(prop_id, paths):
+    """Replays committed reproducers (in a child of a pristine worker); returns [(path, status, signature, error)]."""
+    def go():
+        out = []
+        for path in paths:
+            try:
+                v, _rec = replay_file(path)
+                out.append((path, v.status, v.signature, None))
+            except Exception:  # noqa: BLE001
+                out.append((path, "error", "", traceback.format_exc()))
+        return out
+    return _in_child(go)
+
+
 # ----------------------------------------------------------------------------- known findings
 def load_known():
     path = os.path.join(VERIF, "known_findings.json")
@@ -127,6 +180,13 @@ def replay_file(path):
     with open(path) as fh:
         trace = json.load(fh)
     prop = load_prop(trace["property"])
+    if "sequence" in trace:
+        # a history of several runs in ONE process (hidden process-global state in the library): the earlier
+        # traces are executed for their side effects, the verdict of the last one decides
+        v = None
+        for t in trace["sequence"]:
+            v = prop.execute(t)
+        return v, trace.get("verdict") or {}
     v = prop.execute(trace)
     return v, trace.get("verdict") or {}
 
@@ -154,13 +214,6 @@ def run_check(prop_id, tier, base_seed, budget_s, jobs, max_runs=None, quiet=Fal
     }
     # regression: reproducers of fixed (and known) findings are replayed first; a fixed one that
     # violates again is reported like any other violation (a fixed entry suppresses nothing)
-    reg = _replay_reproducers(prop, known, agg)
-    if reg is not None:
-        code, vio_info = reg
-        wall = time.time() - t_start
-        agg["evaluations"] = max(agg["evaluations"], 1)
-        write_evidence(prop, tier, base_seed, agg, wall, code, vio_info, jobs)
-        return code
     pending = {}  # start index -> future
     results = {}  # start index -> list
     next_start = 0
@@ -173,6 +226,14 @@ def run_check(prop_id, tier, base_seed, budget_s, jobs, max_runs=None, quiet=Fal
     wall_guard = budget_s + 300  # watchdog: a worker stuck this long is a harness error
     with ProcessPoolExecutor(max_workers=jobs, mp_context=ctx, initializer=_worker_init) as pool:
         try:
+            reg = _replay_reproducers(prop, known, agg, pool)
+            if reg is not None:
+                code, vio_info = reg
+                wall = time.time() - t_start
+                agg["evaluations"] = max(agg["evaluations"], 1)
+                if not os.environ.get("HEXSIM_LEG"):
+                    write_evidence(prop, tier, base_seed, agg, wall, code, vio_info, jobs)
+                return code
             while True:
                 now = time.time()
                 can_submit = (now < deadline and stop_reason is None
@@ -181,7 +242,7 @@ def run_check(prop_id, tier, base_seed, budget_s, jobs, max_runs=None, quiet=Fal
                     end = next_start + chunk
                     if max_runs is not None:
                         end = min(end, max_runs)
-                    fut = pool.submit(_work, prop_id, base_seed, next_start, end, dsample)
+                    fut = pool.submit(_work_isolated, prop_id, base_seed, next_start, end, dsample)
                     pending[next_start] = fut
                     next_start = end
                     if max_runs is not None and next_start >= max_runs:
@@ -314,33 +375,38 @@ def _hash_seed_leg(prop_id, tier, base_seed, budget_s, jobs):
     return EXIT_OK, None, leg
 
 
-def _replay_reproducers(prop, known, agg):
-    for entry in known:
-        if entry["property"] != prop.ID or not entry.get("replay"):
-            continue
+def _replay_reproducers(prop, known, agg, pool):
+    """Committed reproducers, each replayed on its own in a child of a pristine pool worker (the parent never
+    executes library code before the batch, so the workers it forks carry no library state)."""
+    entries = [e for e in known if e["property"] == prop.ID and e.get("replay")]
+    for entry in entries:
         path = os.path.join(VERIF, entry["replay"])
         if not os.path.exists(path):
             print(f"HARNESS-ERROR property={prop.ID} reproducer missing: {path}", flush=True)
             return EXIT_HARNESS, None
+    futs = [(e, pool.submit(_replay_task, prop.ID, [os.path.join(VERIF, e["replay"])])) for e in entries]
+    for entry, fut in futs:
         try:
-            v, _rec = replay_file(path)
-        except Exception:  # noqa: BLE001
-            print(f"HARNESS-ERROR property={prop.ID} reproducer {path} failed to execute\n"
-                  + traceback.format_exc(), flush=True)
+            (path, status, signature, error), = fut.result(timeout=900)
+        except Exception as exc:  # noqa: BLE001
+            print(f"HARNESS-ERROR property={prop.ID} reproducer {entry['replay']} could not be replayed: {exc!r}", flush=True)
+            return EXIT_HARNESS, None
+        if status == "error":
+            print(f"HARNESS-ERROR property={prop.ID} reproducer {path} failed to execute\n{error}", flush=True)
             return EXIT_HARNESS, None
         agg["stats"]["reproducers_replayed"] += 1
-        if v.status != "violation":
+        if status != "violation":
             continue
-        if entry.get("status") == "known" and v.signature == entry["signature"]:
+        if entry.get("status") == "known" and signature == entry["signature"]:
             agg["known_hit"][entry["signature"]] += 1
             continue
-        if known_match(known, prop.ID, v.signature) is not None:
-            agg["known_hit"][v.signature] += 1
+        if known_match(known, prop.ID, signature) is not None:
+            agg["known_hit"][signature] += 1
             continue
-        print(f"violation: {v.signature} reproduced by committed reproducer {entry['replay']} "
+        print(f"violation: {signature} reproduced by committed reproducer {entry['replay']} "
               f"(entry status: {entry.get('status')})", flush=True)
         print(f"VIOLATION property={prop.ID} replay={path}", flush=True)
-        return EXIT_VIOLATION, {"signature": v.signature, "replay": path, "index": -1}
+        return EXIT_VIOLATION, {"signature": signature, "replay": path, "index": -1}
     return None
 
 
@@ -389,7 +455,7 @@ def _merge(agg, rec, prop, base_seed, known):
 def _handle_violation(prop, base_seed, rec, known, agg):
     """Shrink, re-match against known findings, write replay, confirm in a fresh interpreter."""
     trace = plan_run(base_seed, prop, rec["i"])
-    v0 = prop.execute(trace)
+    v0 = _in_child(prop.execute, trace)     # in a child: this process stays free of library state
     minimised = False
     if v0.status == "violation" and v0.signature == rec["sig"]:
         try:
@@ -423,9 +489,64 @@ def _handle_violation(prop, base_seed, rec, known, agg):
               f"file holds the full trace and reproduces in a fresh interpreter", flush=True)
         print(f"VIOLATION property={prop.ID} replay={path}", flush=True)
         return EXIT_VIOLATION, {"signature": sig, "replay": path, "index": rec["i"]}
+    seq = _sequence_violation(prop, base_seed, rec, known, agg)
+    if seq is not None:
+        return seq
     print(f"HARNESS-ERROR property={prop.ID} violation {rec['sig']} did not replay in a fresh "
-          f"interpreter (rc={rc}); replay={path}\n{out[-2000:]}", flush=True)
+          f"interpreter (rc={rc}), neither alone nor after the earlier runs of its chunk; replay={path}\n{out[-2000:]}",
+          flush=True)
     return EXIT_HARNESS, None
+
+
+def _sequence_violation(prop, base_seed, rec, known, agg):
+    """The violation needs the HISTORY OF THE PROCESS: the trace alone passes in a fresh interpreter, but it
+    was observed after the earlier runs of its chunk (which started from a pristine process).  That sequence
+    of traces is the replay file; the earlier traces are dropped one by one while the violation persists."""
+    start = rec.get("chunk_start")
+    if start is None or start >= rec["i"]:
+        return None
+    seq = [plan_run(base_seed, prop, i) for i in range(start, rec["i"] + 1)]
+
+    def write(traces):
+        d = os.path.dirname(write_replay(prop.ID, dict(traces[-1]), Verdict(
+            status="violation", signature=rec["sig"], op_index=rec.get("op_index", -1))))
+        path = os.path.join(d, f"{traces[-1].get('seed', 0)}-sequence.json")
+        with open(path, "w") as fh:
+            json.dump({"format": 1, "property": prop.ID, "seed": traces[-1].get("seed", 0), "sequence": traces,
+                       "hashseed": os.environ.get("PYTHONHASHSEED", "0"),
+                       "verdict": {"status": "violation", "signature": rec["sig"], "op_index": rec.get("op_index", -1)}},
+                      fh, indent=1)
+        return path
+
+    def reproduces(traces):
+        rc, out = replay_fresh(write(traces))
+        return rc == EXIT_VIOLATION and rec["sig"] in out
+
+    if not reproduces(seq):
+        return None
+    if reproduces(seq[-1:]):
+        seq = seq[-1:]
+    deadline = time.time() + float(os.environ.get("VERIF_SHRINK_S", "60"))
+    k = 0
+    while k < len(seq) - 1 and time.time() < deadline:
+        cand = seq[:k] + seq[k + 1:]
+        if reproduces(cand):
+            seq = cand
+        else:
+            k += 1
+    path = write(seq)
+    if known_match(known, prop.ID, rec["sig"]) is not None:
+        agg["known_hit"][rec["sig"]] += 1
+        return EXIT_OK, None
+    if len(seq) == 1:
+        print(f"violation: {rec['sig']} (run index {rec['i']}, seed {seq[-1]['seed']}); NOT minimised (the minimised "
+              f"trace did not reproduce in a fresh process; the full trace does)", flush=True)
+    else:
+        print(f"violation: {rec['sig']} (run index {rec['i']}, seed {seq[-1]['seed']}); the trace alone passes in a "
+              f"fresh process: the violation needs {len(seq) - 1} earlier run(s) IN THE SAME PROCESS (the library keeps "
+              f"state between objects); the replay file holds that sequence of traces", flush=True)
+    print(f"VIOLATION property={prop.ID} replay={path}", flush=True)
+    return EXIT_VIOLATION, {"signature": rec["sig"], "replay": path, "index": rec["i"], "sequence_length": len(seq)}
 
 
 # ----------------------------------------------------------------------------- evidence
